@@ -46,18 +46,26 @@ def diff_work(seq, par, start, n, scale):
         part.inconc("sequential build aborted on the workload (owned by C18)")
         return part.dump()
     orders = [set() for _ in progs]
+    marker = os.path.join(build.ROOT, "tmp", "c20-hang-%d" % os.getppid())     # set once a hang is confirmed: the other batches do not wait for it again
+    hung = False
     for pool in (1, 2, 4, 16):
         for dseed in (0, 1 + start, 7 + start):
+            if hung or os.path.exists(marker):
+                part.count("parallel runs skipped after a confirmed hang")
+                continue
             env = dict(base_env, ORATIO_VERIF_POOL_SIZE=str(pool))
             if dseed:
                 env["VERIF_PIVOT_DELAY_SEED"] = str(dseed)
-            budget = max(240, 80 * seq_time)
+            budget = max(150, 80 * seq_time)
             try:
                 rc, so, se = run_raw(par, progs, env, timeout=budget)
             except subprocess.TimeoutExpired:
                 try:    # once more before calling it a hang: the sequential build needed seconds for the same programs
                     rc, so, se = run_raw(par, progs, env, timeout=budget)
                 except subprocess.TimeoutExpired:
+                    hung = True
+                    os.makedirs(os.path.dirname(marker), exist_ok=True)
+                    open(marker, "w").close()
                     part.violation("parallel/no-termination", "the PARALLELIZE build (pool size %d, delay seed %d) does not finish in %d s a batch the sequential build finishes in %.1f s, twice in a row" % (pool, dseed, budget, seq_time),
                                    {"first_program": progs[0], "pool": pool, "delay_seed": dseed})
                     continue
@@ -105,11 +113,19 @@ def tsan_work(tsan, start, n, scale):
         env = drv.san_env({"TSAN_OPTIONS": "halt_on_error=0:second_deadlock_stack=1:history_size=4", "ORATIO_VERIF_POOL_SIZE": str(pool)})
         if dseed:
             env["VERIF_PIVOT_DELAY_SEED"] = str(dseed)
-        try:
-            rc, so, se = run_raw(tsan, progs, env, timeout=500)
-        except subprocess.TimeoutExpired:
-            part.inconc("TSan run timed out")
+        if os.path.exists(os.path.join(build.ROOT, "tmp", "c20-hang-%d" % os.getppid())) and pool != 4:
+            part.count("TSan runs skipped after a confirmed hang")
             continue
+        timed_out = False
+        try:
+            rc, so, se = run_raw(tsan, progs, env, timeout=400)
+        except subprocess.TimeoutExpired as ex:
+            # the reports printed before the watchdog fired still count
+            part.inconc("TSan run timed out")
+            timed_out = True
+            rc = None
+            so = ex.stdout.decode(errors="replace") if isinstance(ex.stdout, bytes) else (ex.stdout or "")
+            se = ex.stderr.decode(errors="replace") if isinstance(ex.stderr, bytes) else (ex.stderr or "")
         got = [l for l in so.split("\n") if l.startswith("= ")]
         part.count("TSan runs")
         for b in got:
@@ -124,7 +140,7 @@ def tsan_work(tsan, start, n, scale):
                 continue
             key = "tsan/%s/%s" % (m.group(1).replace(" ", "-"), "|".join(sorted(set(repo_frames[:4]))))
             part.violation(key, "ThreadSanitizer: %s involving %s" % (m.group(1), ", ".join(sorted(set(repo_frames[:4])))), {"report": body[:4000], "pool": pool, "delay_seed": dseed, "first_program": progs[0]})
-        if len(got) != len(progs):
+        if len(got) != len(progs) and not timed_out:
             cr = drv.Crash(rc, drv.clip(se))
             part.violation("parallel-tsan/abort/%s" % cr.site(), "the TSan build terminates abnormally: " + cr.site(), {"stderr": drv.clip(se)})
     for p in progs:
@@ -153,4 +169,8 @@ def run(tier):
     res.gate("tasks actually ran concurrently", res.counters.get("runs in which >= 2 row-update tasks were observed running at the same time", 0) > 0)
     res.gate("task completions were reordered in some runs", res.counters.get("histories with reordered task completions", 0) > 0)
     res.gate("tasks executed under TSan", res.counters.get("TSan: pivot tasks executed under the race detector", 0) > 200)
+    try:
+        os.remove(os.path.join(build.ROOT, "tmp", "c20-hang-%d" % os.getpid()))
+    except OSError:
+        pass
     return res.finish()
